@@ -5,8 +5,8 @@
      remove-node / create / remove, overlapping names, at most one injected
      failure of a store or plugin step), schedules s:
        all threads finished after s -> Ref (final world).
-   It is refuted by three witnesses (C22_refuted_*); what holds instead is
-   C22_partial_* below.  This file contains only the property theorems. *)
+   It is refuted by three witnesses (the C22_refuted theorems); what holds instead is the
+   C22_partial theorems below.  This file contains only the property theorems. *)
 From Coq Require Import List String.
 From Verif Require Import Calcium.Refs Calcium.RefsProofs.
 Import ListNotations.
